@@ -1037,6 +1037,21 @@ impl<'a> Iterator for SelectorIter<'a> {
                                 return None;
                             } else {
                                 let result = self.get_internal_ranged_item(self.selector);
+                                if self.recurse_annotation {
+                                    //follow the annotation like a normal AnnotationSelector would
+                                    let annotation: &Annotation = self
+                                        .store
+                                        .get(AnnotationHandle::new(begin.as_usize() + self.cursor_in_range))
+                                        .expect("referenced annotation must exist");
+                                    self.subiterstack.push(SelectorIter {
+                                        selector: annotation.target(),
+                                        subiterstack: Vec::new(),
+                                        cursor_in_range: 0,
+                                        recurse_annotation: self.recurse_annotation,
+                                        store: self.store,
+                                        done: false,
+                                    });
+                                }
                                 self.cursor_in_range += 1;
                                 return Some(result);
                             }
@@ -1069,7 +1084,11 @@ impl<'a> Iterator for SelectorIter<'a> {
                 if result.is_none() {
                     self.subiterstack.pop();
                     if self.subiterstack.is_empty() {
-                        return None;
+                        if self.done {
+                            return None;
+                        } else {
+                            continue; //an internal ranged selector that is not exhausted yet
+                        }
                     } else {
                         continue; //recursion
                     }
